@@ -34,6 +34,10 @@ def file_cfg(draw):
     if kind in ("vdif_real", "vdif_complex"):
         cfg.update(nthread=draw(st.sampled_from([1, 2, 4])), nchan=draw(st.sampled_from([1, 2])), spf=draw(st.sampled_from([32, 64])),
                    nframes=draw(st.sampled_from([8, 10])), seed=draw(st.integers(0, 1)))
+        # start of the recording: an ordinary day, or a UTC day that ends with a leap second (86401 s long)
+        t0 = draw(st.sampled_from(["2020-03-01T00:00:00", "2020-03-01T00:00:00", "2016-12-31T12:00:00", "2015-06-30T06:00:07"]))
+        if t0 != "2020-03-01T00:00:00":
+            cfg["t0"] = t0
     elif kind == "dada_complex":
         cfg.update(nchan=draw(st.sampled_from([1, 2, 3])), spf=draw(st.sampled_from([32, 64])), nframes=draw(st.sampled_from([3, 4])), seed=draw(st.integers(0, 1)))
     elif kind == "guppi":
